@@ -11,13 +11,32 @@ namespace
         void w(const char *d, unsigned n) { sink->on_write(d, n); }
         void e(const char *d, unsigned n) { sink->on_execute(d, n); }
         void s(int sig) { sink->on_signal(sig); }
+        static TermXX *&routed() { static TermXX *t = nullptr; return t; }
+        static TermXX *self_of(void *p) { return p ? (TermXX *)p : routed(); }
+        static void cw(void *p, const char *d, unsigned n) { self_of(p)->sink->on_write(d, n); }
+        static void ce(void *p, const char *d, unsigned n) { self_of(p)->sink->on_execute(d, n); }
+        static void cs(void *p, int sig) { self_of(p)->sink->on_signal(sig); }
         void start(unsigned cap, unsigned h, TermSink *sk, const char *prompt, bool echo) override
         {
             sink = sk;
             vt.init(cap, h);
-            vt.set_write_callback(igris::make_delegate(&TermXX::w, this));
-            vt.set_execute_callback(igris::make_delegate(&TermXX::e, this));
-            vt.set_signal_callback(igris::make_delegate(&TermXX::s, this));
+            // three ways of wiring the callbacks: member functions; C-style functions with the object as context pointer;
+            // C-style functions with a NULL context (the object is found through a file-level pointer, as C code does)
+            int style = (int)((cap + 2 * h) % 3);
+            if (style == 0)
+            {
+                vt.set_write_callback(igris::make_delegate(&TermXX::w, this));
+                vt.set_execute_callback(igris::make_delegate(&TermXX::e, this));
+                vt.set_signal_callback(igris::make_delegate(&TermXX::s, this));
+            }
+            else
+            {
+                void *ctx = style == 1 ? (void *)this : nullptr;
+                routed() = this;
+                vt.set_write_callback(igris::make_delegate(&TermXX::cw, ctx));
+                vt.set_execute_callback(igris::make_delegate(&TermXX::ce, ctx));
+                vt.set_signal_callback(igris::make_delegate(&TermXX::cs, ctx));
+            }
             vt.set_prompt(prompt);
             vt.set_echo(echo ? 1 : 0);
             vt.init_step();
